@@ -12,7 +12,7 @@ import (
 func vRefTemplate(x, y byte) (root string, body string, names []string) {
 	X := "@" + string([]byte{x})
 	Y := "@" + string([]byte{y})
-	switch zzverif.IntRange("position", 0, 12) {
+	switch zzverif.IntRange("position", 0, 15) {
 	case 0:
 		return `{"k": ` + X + `}`, `1`, []string{X}
 	case 1:
@@ -38,6 +38,14 @@ func vRefTemplate(x, y byte) (root string, body string, names []string) {
 		return `{"` + X + `": {"k": ` + Y + `}, "z": 1}`, `1`, []string{Y}
 	case 11: // allOf on an own member below another allOf object
 		return "{ // {allOf: \"" + X + "\"}\n  \"inner\": { // {allOf: \"" + Y + "\"}\n    \"deep\": 1\n  }\n}", `{}`, []string{X, Y}
+	case 13: // an alternative with further rules next to the type name is kept as an unnamed type
+		zzverif.Assume(x != y) // the same type twice is refused for its own reason
+		return `1 // {or: [{type: "` + X + `", nullable: true}, {type: "` + Y + `"}]}`, `1`, []string{X, Y}
+	case 14:
+		zzverif.Assume(x != y)
+		return `1 // {or: [{type: "integer", min: 0}, {type: "` + X + `", nullable: false}, "` + Y + `"]}`, `1`, []string{X, Y}
+	case 15: // a key shortcut whose name was already seen, with a reference below it
+		return `{"id": ` + X + `, ` + X + `: ` + Y + `}`, `"s"`, []string{X, Y}
 	default: // rule sets (unnamed types) in the root and in the registered types, all in files of the same name
 		return `1 // {or: [{type: "` + X + `"}, {type: "integer", min: 0}]}`, `1 // {or: [{type: "integer"}, {type: "string"}]}`, []string{X}
 	}
